@@ -237,6 +237,7 @@ theorem LInv_closed : Closed LInv where
   front := fun s f h => ⟨TCInv_closed.front s f h.1, LA_front s f h.1.1 h.2⟩
   siteCnt := fun s x h => ⟨TCInv_closed.siteCnt s x h.1, LA_of_lview h.2 rfl⟩
   emitInj := fun s a b c d h => ⟨TCInv_closed.emitInj s a b c d h.1, LA_of_lview h.2 rfl⟩
+  note := fun s h => ⟨TCInv_closed.note s h.1, LA_of_lview h.2 rfl⟩
   clock := fun s n h => ⟨TCInv_closed.clock s n h.1, LA_of_lview h.2 rfl⟩
   lastFlush := fun s n h => ⟨TCInv_closed.lastFlush s n h.1, LA_of_lview h.2 rfl⟩
   gone := fun s h => ⟨TCInv_closed.gone s h.1, LA_of_lview h.2 rfl⟩
